@@ -52,7 +52,9 @@ MORE3 = {
              "tree_hash_from_stream are proved to implement) rejects every blob starting with the magic prefix 0xfd 0xff. Varints are "
              "proved by Kani (harnesses varint_roundtrip and varint_decode_total run as part of this check: strict mode accepts every varint the "
              "serializer writes) and enter the Verus proof as an assumed contract with exactly that statement. The round-trip clause for whole "
-             "trees is NOT decided by proof (a concrete search over trees, levels and byte strings, vreplay search C20, runs in the thorough tier): "
+             "trees is NOT decided by proof: a BOUNDED stand-in runs on every check (trees x compression levels incl. varint-width boundaries, "
+             "shared sub-trees and deep spines; totality and probe == consumed on mutated blobs, all short instruction streams and 20000 random "
+             "bodies; labelled bounded, never counted as proved): "
              "serialize_2026 interns atoms and pairs through HashMaps, outside Verus's fragment; the back-reference decoder's rejection of the "
              "prefix is not under contract.",
         note=TB + "Six small std calls (usize::try_from, Vec::resize, read_exact into a Vec, Vec::get().ok_or, checked_neg/checked_sub, "
